@@ -16,8 +16,14 @@ reader's machinery (no stacks, no sweep, no re-snapping):
 an undefined `#BPMxx` id, two tempo objects or two objects of one lane at the same position, an `#LNOBJ` object
 with no open object before it, missing or non-positive `#BPM`.
 
-The byte-level lexer (`classify`, `parseDoc`, `readHeader`, `parseFloat`, …) is shared with the model
-(`Model/BMS.lean`): the text layer is a parameter of C04/C05, the semantics above is what they are about.
+Two entry points into the same semantics (`denoteBody`):
+* `denoteText` (C04) — the specification's OWN text layer, written independently of the reader: `fileLines` (a file's
+  bytes into lines), `trimBlank`, `bookLine` (one line: comment / `#NAME value` / `#mmmcc:data` / ignored word),
+  `bookTable` (first definition fixes the place, last gives the value), `bookDoc`, `bookHeader` (the header record).
+  `Props/C04.lean` proves it equal to the reader's lexer wherever it gives a meaning and states where they part.
+* `denote` (C05, and the semantic core of C04) — the same semantics over the model's lexer (`classify`, `parseDoc`,
+  `readHeader`); `denoteText_eq_denote` relates the two.
+Shared by both and by the model: the number parsers `parseFloat`, `parseNat`, `parseHex2`.
 -/
 import Reamber.Model.BMS
 import Reamber.Spec.Timing
@@ -192,6 +198,165 @@ def denote (lay : Layout) (lines : List Bytes) : Option Denotation :=
         some { header := hdr, tempo := cs, shits := shits, sholds := sholds,
                hits := shits.map (fun h => ⟨h.col, h.sample, T h.snap⟩),
                holds := sholds.map (fun h => ⟨h.col, h.sample, T h.head, T h.tail - T h.head⟩) }
+
+
+/-! ### the text layer by the book — written independently of the reader's lexer
+
+`Props/C04.lean` proves (`bookLine_classify`, `bookTable_eq_fold`, `bookDoc_parseDoc`) that on every byte string on
+which this lexer gives a line a meaning the reader's classifier (`classify`: `strip`, `split(b" ", 1)`,
+`split(b":")`, slices) gives the same, and that the header table built by "first definition fixes the place, last
+definition gives the value" is the reader's insertion-ordered dict.  Where this lexer is silent and the reader is
+not (a command longer than `#mmmcc`, a channel that is not alphanumeric, `#m:…`) the reader is more liberal than
+the format: dialect facts, listed in `lexer_dialect_facts`. -/
+
+/-- ASCII white space: the space, and HT LF VT FF CR (9 … 13) -/
+def isBlank (c : Char) : Bool := c.toNat = 32 || (decide (9 ≤ c.toNat) && decide (c.toNat ≤ 13))
+
+/-- a line without the white space at its two ends -/
+def trimBlank (s : Bytes) : Bytes := ((s.dropWhile isBlank).reverse.dropWhile isBlank).reverse
+
+def isAlnum (c : Char) : Bool :=
+  isDigit c || (decide ('A' ≤ c) && decide (c ≤ 'Z')) || (decide ('a' ≤ c) && decide (c ≤ 'z'))
+
+/-- One line of a BMS text.  White space at the ends is insignificant.  A line that does not begin with `#` is a
+comment.  `#NAME value`: a header command — the name ends at the first space, the value is everything behind it
+(values may contain spaces).  `#mmmcc:data` (no space; three decimal digits, two alphanumeric channel characters,
+data without a colon): a channel message.  Any other `#…` word that does not start with a digit (`#ENDIF`, an
+unfilled header) is ignored.  Silent (`none`): a lone `#`, and a word starting with a digit that is not of the
+form `#mmmcc:data`. -/
+def bookLine (raw : Bytes) : Option Line :=
+  match trimBlank raw with
+  | '#' :: body =>
+    if body.contains ' ' then
+      some (.header (body.takeWhile (fun c => c != ' ')) ((body.dropWhile (fun c => c != ' ')).drop 1))
+    else
+      match body with
+      | [] => none
+      | c :: _ =>
+        if isDigit c then
+          match body with
+          | m1 :: m2 :: m3 :: c1 :: c2 :: ':' :: data =>
+            if isDigit m2 && isDigit m3 && isAlnum c1 && isAlnum c2 && !(data.contains ':')
+            then some (.note [m1, m2, m3] [c1, c2] data) else none
+          | _ => none
+        else some .skip
+  | _ => some .skip
+
+/-- the last definition of a name -/
+def lastValue {α} (k : Bytes) : List (Bytes × α) → Option α
+  | [] => none
+  | kv :: rest =>
+    match lastValue k rest with
+    | some w => some w
+    | none => if kv.1 = k then some kv.2 else none
+
+/-- a table given by definitions in file order: a name defined more than once keeps the place of its first
+definition and has the value of its last -/
+def bookTable {α} : List (Bytes × α) → Dict α
+  | [] => []
+  | kv :: rest => (kv.1, (lastValue kv.1 rest).getD kv.2) :: (bookTable rest).filter (fun p => p.1 ≠ kv.1)
+
+def Line.headerOf : Line → Option (Bytes × Bytes)
+  | .header k v => some (k, v)
+  | _ => none
+
+def Line.messageOf : Line → Option (Bytes × Bytes × Bytes)
+  | .note m c s => some (m, c, s)
+  | _ => none
+
+/-- a text: every line has a meaning; the header table, and the channel messages in file order (duplicated
+message lines are all kept — their objects add up) -/
+def bookDoc (lines : List Bytes) : Option Doc :=
+  (allSome (lines.map bookLine)).map fun ls => ⟨bookTable (ls.filterMap Line.headerOf), ls.filterMap Line.messageOf⟩
+
+/-- the meaning of a lexed text (the same semantics as `denote`) -/
+def denoteDoc (lay : Layout) (doc : Doc) : Option Denotation :=
+  match readHeader doc.header with
+  | .error _ => none
+  | .ok hdr =>
+    match denoteBody lay doc hdr with
+    | none => none
+    | some (cs, shits, sholds) =>
+      let T := timeAt 0 cs
+      some { header := hdr, tempo := cs, shits := shits, sholds := sholds,
+             hits := shits.map (fun h => ⟨h.col, h.sample, T h.snap⟩),
+             holds := sholds.map (fun h => ⟨h.col, h.sample, T h.head, T h.tail - T h.head⟩) }
+
+
+/-! ### the header record by the book (independent of `readHeader`'s loops) -/
+
+/-- `#BPMxx`: the letters BPM (either case) followed by exactly two characters — the id -/
+def exbpmId (k : Bytes) : Option Bytes :=
+  match k with
+  | [b, p, m, x, y] => if upper b = 'B' ∧ upper p = 'P' ∧ upper m = 'M' then some [x, y] else none
+  | _ => none
+
+/-- `#WAVxx` likewise -/
+def wavId (k : Bytes) : Option Bytes :=
+  match k with
+  | [w, a, v, x, y] => if upper w = 'W' ∧ upper a = 'A' ∧ upper v = 'V' then some [x, y] else none
+  | _ => none
+
+/-- a name that begins with WAV (either case) -/
+def wavLike (k : Bytes) : Bool :=
+  match k with
+  | w :: a :: v :: _ => decide (upper w = 'W') && decide (upper a = 'A') && decide (upper v = 'V')
+  | _ => false
+
+/-- The header record of a header table: `#TITLE`, `#ARTIST`, `#PLAYLEVEL`, `#LNOBJ` (empty when absent), the
+`#BPMxx` and `#WAVxx` tables keyed by id (an id defined twice — also through another spelling of BPM/WAV — keeps
+its first place and has its last value), the `#BPM` tempo, and every other header in table order.  Silent: no
+`#BPM`, a tempo that is not a decimal number, a `#WAV…` name that is not `#WAVxx` (the reader files it under its
+last two characters: dialect). -/
+def bookHeader (tbl : Dict Bytes) : Option Header :=
+  if tbl.any (fun kv => wavLike kv.1 && (wavId kv.1).isNone) then none else
+  match allSome ((tbl.filterMap (fun kv => (exbpmId kv.1).map (fun id => (id, kv.2)))).map
+      (fun p => (parseFloat p.2).map (fun v => (p.1, v)))) with
+  | none => none
+  | some ex =>
+    match (dictGet? tbl "BPM".toList).bind parseFloat with
+    | none => none
+    | some bpm0 =>
+      some { title := (dictGet? tbl "TITLE".toList).getD [],
+             artist := (dictGet? tbl "ARTIST".toList).getD [],
+             version := (dictGet? tbl "PLAYLEVEL".toList).getD [],
+             lnEnd := (dictGet? tbl "LNOBJ".toList).getD [],
+             exbpms := bookTable ex,
+             samples := bookTable (tbl.filterMap (fun kv => (wavId kv.1).map (fun id => (id, kv.2)))),
+             bpm0 := bpm0,
+             misc := tbl.filter (fun kv => (exbpmId kv.1).isNone && (wavId kv.1).isNone && decide (kv.1 ≠ "BPM".toList)) }
+
+/-- the meaning of a lexed text, header record by the book -/
+def denoteDocBook (lay : Layout) (doc : Doc) : Option Denotation :=
+  match bookHeader doc.header with
+  | none => none
+  | some hdr =>
+    match denoteBody lay doc hdr with
+    | none => none
+    | some (cs, shits, sholds) =>
+      let T := timeAt 0 cs
+      some { header := hdr, tempo := cs, shits := shits, sholds := sholds,
+             hits := shits.map (fun h => ⟨h.col, h.sample, T h.snap⟩),
+             holds := sholds.map (fun h => ⟨h.col, h.sample, T h.head, T h.tail - T h.head⟩) }
+
+/-- **BMS by the book, text to meaning, with the specification's own lexer** -/
+def denoteText (lay : Layout) (lines : List Bytes) : Option Denotation :=
+  match bookDoc lines with
+  | none => none
+  | some doc => denoteDocBook lay doc
+
+/-- `read_file`: the file's bytes split into lines at LF (10), CRLF or a bare CR (13) — the three line-end
+conventions of text files; a trailing line end does not start another line -/
+def fileLinesAux : Bytes → Bytes → List Bytes
+  | cur, [] => if cur.isEmpty then [] else [cur.reverse]
+  | cur, [c] => if c.toNat = 13 || c.toNat = 10 then [cur.reverse] else [(c :: cur).reverse]
+  | cur, c :: d :: t =>
+    if c.toNat = 13 then
+      (if d.toNat = 10 then cur.reverse :: fileLinesAux [] t else cur.reverse :: fileLinesAux [] (d :: t))
+    else if c.toNat = 10 then cur.reverse :: fileLinesAux [] (d :: t)
+    else fileLinesAux (c :: cur) (d :: t)
+
+def fileLines (b : Bytes) : List Bytes := fileLinesAux [] b
 
 /-! ### syntax of a data line (C05: "every line is syntactically valid") -/
 
